@@ -166,7 +166,7 @@ theorem step_PS (w : World) (ctx : StepCtx) (step : Outbound.Step) (now : Nat) :
     Outcome (.PS w ctx step now) := by
   cases hp : prepareStep w step with
   | fail e =>
-    exact .done _ (Final.finishErr (.PS w ctx step now) ((Rel.refl w).discFail ctx) (ctxName ctx) e)
+    exact .done _ (Final.finishErr (.PS w ctx step now) ((Rel.refl w).failStep ctx step) (ctxName ctx) e)
       (fun m => by simp only [Call.run, performStep, hp])
   | done =>
     refine .call (.SR w ctx false) ⟨?_, Rel.refl _, fun hs => .inl ⟨?_, hs.2⟩⟩
